@@ -180,6 +180,12 @@ Definition connect_interface (fl : flavour) (ns : N) (i : iface_h) : M unit :=
       peers <- ask (fun g => peer_cps g (ih_id i)) ;;
       guard (match peers with [] => true | _ => false end) ETopology ;;;
       let pname := oname ++ dash ++ ih_name i in
+      (* fix 8b1a93d: refuse before creating anything when the service already has an interface with the derived
+         name, or a link with the derived link name exists *)
+      cps <- ask (fun g => service_iface_names g ns) ;;
+      guard (negb (str_in pname cps)) ETopology ;;;
+      ltaken <- ask (fun g => Ok (name_taken g cLink (pname ++ suffix_link))) ;;
+      guard (negb ltaken) ETopology ;;;
       p <- new_interface fl pname None (Some ns) (Some tServicePort) None ;;
       ity <- ask (fun g => node_type g (ih_id i)) ;;
       let lty := if ity =? tSharedPort then tL2Path else tPatch in
@@ -417,20 +423,20 @@ Definition op_add_component (fl : flavour) (pn : N) (name : str) (node_id : opti
   end.
 
 (* Topology.add_facility   topology.py:245-281: node, then its service, then the port(s); the handle `facs`
-   returned by add_network_service never learns about the ports added through it, so its uniqueness check
-   sees an empty list.  Derived ids (node_id + '-ns', '-int', '-int<k>') are interned by the harness and
+   returned by add_network_service starts with an empty interface list and (fix 18a115a) learns the ports added
+   through it, so a port name repeated in the list is refused.  Derived ids (node_id + '-ns', '-int', '-int<k>') are interned by the harness and
    handed over as `d_ns`, `d_int`, `d_intk` (k-th element for index k); WHICH index is used for which
    port is decided here, as in the code (iindex starts at 0 before the loop and is incremented). *)
 Record fac_port := mkFacPort { fp_name : str; fp_pure : option exn }.
 
-Fixpoint facility_ports (fl : flavour) (ns : N) (ports : list fac_port) (with_id : bool)
+Fixpoint facility_ports (fl : flavour) (ns : N) (cached : list str) (ports : list fac_port) (with_id : bool)
          (d_intk : list N) (iindex : nat) : M unit :=
   match ports with
   | [] => ret tt
   | p :: r =>
       let nid := if with_id then Some (nth iindex d_intk 0) else None in
-      _ <- add_interface_cached fl ns [] (fp_name p) nid (Some tFacilityPort) (fp_pure p) ;;
-      facility_ports fl ns r with_id d_intk (Datatypes.S iindex)
+      _ <- add_interface_cached fl ns cached (fp_name p) nid (Some tFacilityPort) (fp_pure p) ;;
+      facility_ports fl ns (cached ++ [fp_name p]) r with_id d_intk (Datatypes.S iindex)
   end.
 
 Definition facility_tail (fl : flavour) (facn : N) (name : str) (with_id : bool) (d_ns d_int : N)
@@ -443,7 +449,7 @@ Definition facility_tail (fl : flavour) (facn : N) (name : str) (with_id : bool)
       _ <- add_interface_cached fl facs [] (name ++ suffix_int) (if with_id then Some d_int else None)
                                 (Some tFacilityPort) pure_single ;;
       ret tt
-  | Some l => facility_ports fl facs l with_id d_intk 0
+  | Some l => facility_ports fl facs [] l with_id d_intk 0
   end.
 
 (* fix 2982a89: everything after add_node runs in a try; on any exception the facility node is removed with
@@ -464,21 +470,21 @@ Definition op_add_facility (fl : flavour) (name : str) (node_id : option N) (d_n
 Definition tSwitch : N := 10.
 Definition port_name (i : nat) : str := 112 :: str_of_Z (Z.of_nat i).       (* 'p' ++ str(i) *)
 
-Fixpoint switch_ports (fl : flavour) (ns : N) (n : nat) (i : nat) (with_id : bool) (d_intk : list N)
-         (pure_port : option exn) : M unit :=
+Fixpoint switch_ports (fl : flavour) (ns : N) (cached : list str) (n : nat) (i : nat) (with_id : bool)
+         (d_intk : list N) (pure_port : option exn) : M unit :=
   match n with
   | O => ret tt
   | Datatypes.S n' =>
       let nid := if with_id then Some (nth (Nat.pred i) d_intk 0) else None in
-      _ <- add_interface_cached fl ns [] (port_name i) nid (Some tDedicatedPort) pure_port ;;
-      switch_ports fl ns n' (Datatypes.S i) with_id d_intk pure_port
+      _ <- add_interface_cached fl ns cached (port_name i) nid (Some tDedicatedPort) pure_port ;;
+      switch_ports fl ns (cached ++ [port_name i]) n' (Datatypes.S i) with_id d_intk pure_port
   end.
 
 Definition switch_tail (fl : flavour) (sw : N) (name : str) (with_id : bool) (d_ns : N) (d_intk : list N)
            (nstype : N) (pure_ns : option exn) (nports : nat) (pure_port : option exn) : M unit :=
   sws <- op_add_node_service fl sw (name ++ suffix_ns) (if with_id then Some d_ns else None)
                              (Some nstype) pure_ns ;;
-  switch_ports fl sws nports 1 with_id d_intk pure_port.
+  switch_ports fl sws [] nports 1 with_id d_intk pure_port.
 
 (* `rollback`: does Topology.add_switch wrap the steps after add_node in try/except that removes the node
    (proposed_fixes/C09-5.patch)?  The harness reads it off the source of the running library. *)
